@@ -9,7 +9,7 @@
    [op_ok B o]: the replies carried by op o are honest and a ReadAt offset is >= 0; [expected B off n] = bytes
    [off, min(off+n, size)) of the blob; [results c s os] = the result of every op of the history os. *)
 From Coq Require Import List ZArith NArith Bool Sorted.
-From SV Require Import Model.Region Model.BlobRead Proofs.Region Proofs.BlobRead.
+From SV Require Import Model.Region Model.BlobRead Model.BlobFn Proofs.Region Proofs.BlobRead Proofs.BlobFn.
 Import ListNotations.
 Open Scope Z_scope.
 
@@ -125,6 +125,13 @@ Proof.
   - intros cks' H' Hc. exact (adds_order_irrelevant c cks cks' H H' Hc).
 Qed.
 Print Assumptions C06_fetched_set_any_interleaving.
+
+(* The offsets parseRange extracts from a Content-Range header are never negative (so the "0 <= b" clause of
+   [body_honest] is no restriction on what a registry can send over HTTP). *)
+Theorem C06_content_range_offsets_nonneg :
+  forall h b e sz, parse_range h = Some (b, e, sz) -> 0 <= b /\ 0 <= e /\ 0 <= sz.
+Proof. exact parse_range_nonneg. Qed.
+Print Assumptions C06_content_range_offsets_nonneg.
 
 (* ---- non-vacuity ---- *)
 Definition exB : bytes := [1; 2; 3; 4; 5; 6; 7; 8; 9; 10]%N.
